@@ -323,7 +323,11 @@ def check_queries(ctx, it):
                        detail="Member{at_height: None} does not answer the live MEMBERS value: %s" % show(p.ret)[:200],
                        sample={"ret": show(p.ret)[:200]})
         ctx.floor("R09.3", "%s Member query paths" % crate, n, 2)
-        if crate == "cw4_group":
+        # cw4-stake keeps a plain total today (no `at_height` in its query); should it grow a snapshot total, the same answers
+        # are required of it as of cw4-group
+        historic = crate == "cw4_group" or any(c[0] == ("vfield", ("param", "msg"), "TotalWeight", "at_height")
+                                                for p in groups.get("TotalWeight", []) for c in p.conds)
+        if historic:
             n = 0
             for p in groups.get("TotalWeight", []):
                 if p.is_err():
@@ -338,10 +342,11 @@ def check_queries(ctx, it):
                            detail="TotalWeight{at_height: Some(h)} does not answer may_load_at_height(TOTAL, h): %s" % show(p.ret)[:200],
                            sample={"ret": show(p.ret)[:200]})
                 elif hv == ["None"]:
-                    good = any(x[0] == "may_load" and x[1] == TOTAL for x in walk(p.ret))
+                    good = any(x[0] in ("may_load", "load") and x[1] == TOTAL for x in walk(p.ret)) and \
+                        not any(x[0] == "call" and x[1] == "may_load_at_height" for x in walk(p.ret))
                     ctx.ob("R09.3", "%s::query/TotalWeight live" % crate, good,
                            detail="TotalWeight{at_height: None} does not answer the live TOTAL: %s" % show(p.ret)[:200], sample={"ret": show(p.ret)[:160]})
-            ctx.floor("R09.3", "cw4_group TotalWeight query paths", n, 2)
+            ctx.floor("R09.3", "%s TotalWeight query paths" % crate, n, 2)
         else:
             for p in groups.get("TotalWeight", []):
                 if p.is_err():
